@@ -394,6 +394,8 @@ def _big_document(rng):
     for _ in range(rng.randint(3, 8)):
         pins = rng.sample(names, rng.randint(2, min(8, k)))
         nets.append(pins + ([rng.choice([2, 0.5, 7])] if rng.random() < 0.5 else []))
+    if rng.random() < 0.4:      # a bus: the same net several times (their wire lengths are equal numbers)
+        nets += [list(nets[0]) for _ in range(rng.randint(1, 3))]
     for nm in names[-2:]:
         if not nm.startswith("M"):         # an oddly named module as the LAST pin of a net without weight
             nets.append(rng.sample([x for x in names if x != nm], rng.randint(1, 2)) + [nm])
